@@ -69,7 +69,9 @@ func (c *Ctx) check(cond bool, key string, n ast.Node, okDetail, failDetail stri
 	}
 	return cond
 }
-func (c *Ctx) note(format string, a ...interface{}) { c.notes = append(c.notes, fmt.Sprintf(format, a...)) }
+func (c *Ctx) note(format string, a ...interface{}) {
+	c.notes = append(c.notes, fmt.Sprintf(format, a...))
+}
 
 // anchor reports an unresolved anchor (a role the rule needs could not be
 // found in the tree); this always fails the check.
